@@ -3,7 +3,9 @@
 Correspondence: real `EBBMotionWrap` objects with a scripted fake port vs the Lean model
 (`ebb3 run`), compared per call (bytes handed to write, number of reads, return value, err string,
 port set, version/name/caller/port_name, escaped exception).  Oracle: the property statement, judged on
-the implementation's own observations (independent of the model)."""
+the implementation's own observations (independent of the model).  "An error" is what the statement lists (device error
+reply, unexpected reply, timeout, USB exception), read off the port traffic by `scan_faults`: requests after it must write
+nothing and fail whether or not the object wrote the message down ("latches its first error")."""
 import json
 from . import ebb3_fake as F
 
@@ -11,7 +13,10 @@ RULE = ('exhaustive: every request method x argument class x {no port, error pre
         'request method x argument class x fault kind (timeout, blank lines, Err line, name+Err, wrong name, read '
         'exception, late exception, late wrong reply) at every read position and a write exception at every write position, '
         'each followed by two later requests rotating through all request methods; every ordered pair of request methods '
-        'with an exception / error line in the first; connect/disconnect/reconnect histories; random histories (<= 30 '
+        'with an exception / error line in the first; compound faults inside one exchange - every request method x every '
+        'read position x {one empty read, one blank line, mixed, 2, 3, 24 null reads} followed by {OK, wrong name, wrong name '
+        'sharing the first letter, Err line, name+Err, exception} - alone and at every call position (1..6 healthy earlier '
+        'requests) of a sequence; connect/disconnect/reconnect histories; random histories (<= 30 '
         'calls) with random scripts. Non-trivial = the history contains a blocked call or a fault. Distinct by '
         '(state, concrete script, calls). Compared per call: bytes written, reads, err, port, version, caller, port_name always; '
         'return value and nickname for calls that start blocked (for unblocked calls they are C05 observables and are '
@@ -30,6 +35,78 @@ ASSUMPTIONS = ['arguments are of the documented types (ints, ASCII strings, None
 STAGED = []
 
 
+# ----------------------------------------------------------------------------------------------
+# the statement's list of errors, read off the port traffic (independent of what the object recorded)
+# ----------------------------------------------------------------------------------------------
+RESTART_NAMES = ('r', 'rb', 'bl')     # requests after which the board restarts (finding F10: an I/O exception there is ignored)
+F10_KEY = 'F10-reboot-io-ignored'
+
+
+def scan_faults(events):
+    """The statement names what an error is: "device error reply, unexpected reply, timeout, USB exception".  Each of them is
+    visible in the port traffic of a request, whatever the object then does with it: a write()/readline() that raises; the
+    first non-blank line read after a request carries `Err:` / does not begin with the request's name; the object stops
+    waiting (writes again, or returns) after reading nothing but empty/blank lines for a request.  A request that is not read
+    back at all (reboot/bootload) has no timeout.  Returns [(pos, kind, detail)]: the fault exists before event index `pos`
+    of this call."""
+    out = []
+    pending, answered, blanks = None, True, 0
+
+    def give_up(i):
+        if pending is not None and not answered and blanks:
+            out.append((i, 'timeout', {'request': pending, 'empty_or_blank_reads': blanks}))
+    for i, ev in enumerate(events):
+        if ev[0] == 'w':
+            give_up(i)
+            req = (ev[1][:-1] if ev[1].endswith('\r') else ev[1]).strip()
+            if not ev[2]:
+                out.append((i + 1, 'USB exception', {'request': req, 'raised_by': 'write', 'class': ev[5]}))
+                pending, answered, blanks = None, True, 0
+            else:
+                pending, answered, blanks = req, False, 0
+        elif ev[0] == 'r':
+            if F.is_raise(ev[1]):
+                out.append((i + 1, 'USB exception', {'request': pending, 'raised_by': 'read', 'class': ev[1].key,
+                                                     'after_empty_or_blank_reads': blanks}))
+                answered = True
+            elif pending is not None and not answered:
+                line = ev[1].strip()
+                if not line:
+                    blanks += 1
+                    continue
+                answered = True
+                det = {'request': pending, 'reply': ev[1], 'after_empty_or_blank_reads': blanks}
+                if 'Err:' in line:
+                    out.append((i + 1, 'device error reply', det))
+                elif not line.startswith(F.req_name(pending)):
+                    out.append((i + 1, 'unexpected reply', det))
+    give_up(len(events))
+    return out
+
+
+# C04's premise is "has RECORDED an error".  A fault of the statement's list that the object failed to record is a
+# violation of C05 ("the failure is recorded"; ./check C05 reports it with a failing input), not of C04: with the strict
+# premise (the default, and the reading of DESIGN section 0.4) such observations are logged as out-of-domain differences
+# and never raise a C04 alarm.  UNLATCHED_IS_VIOLATION = True switches to the wider reading ("a fault is an error whether
+# or not it was written down") - kept for experiments only.
+UNLATCHED_IS_VIOLATION = False
+
+
+def unlatched(ctx, what, where, observed, required, key=None):
+    if UNLATCHED_IS_VIOLATION:
+        F.violate(ctx, what, where, observed, required, key=key)
+    elif len(ctx.out_of_domain) < 50:
+        ctx.out_of_domain.append({'what': what + '  [unrecorded error: outside C04\'s premise "has recorded an error"; C05 judges it]',
+                                  'key': key, 'input': where, 'observed': observed})
+
+
+def fault_key(fault, default):
+    kind, det = fault[1], fault[2]
+    if kind == 'USB exception' and det.get('request') and F.req_name(det['request']).lower() in RESTART_NAMES:
+        return F10_KEY
+    return default
+
+
 def oracle(ctx, sc, recs, desc):
     """the statement: after the first recorded error (or without a port) every request writes nothing and returns
     its failure value; the recorded message is never replaced"""
@@ -37,6 +114,7 @@ def oracle(ctx, sc, recs, desc):
     port = sc.state.port
     req = set(F.request_methods())
     nontrivial = False
+    fault = None                # first error of the statement's list seen on the port in an earlier call (recorded or not)
     closed_req = False          # disconnect() has returned (or reboot()/bootload() transmitted) and no connect() since
     for k, r in enumerate(recs):
         name = r['call'][0]
@@ -95,6 +173,31 @@ def oracle(ctx, sc, recs, desc):
                 elif not F.is_failure(r['ret']):
                     F.violate(ctx, f'{name} does not return a failure value although the object is blocked', where,
                                 repr(r['ret']), 'False / None / (None, None)', key=f'C04:{name}:no-failure-value')
+        # ---- "latches its first error": a device error reply, an unexpected reply, a timeout or a USB exception IS an error
+        # of the statement, whether or not the object wrote it down; every request after it writes nothing and returns its
+        # failure value.  (Once the message is recorded the clauses above / below report the same thing under their own keys;
+        # this one speaks when the error went unrecorded.  Faults inside connect()'s handshake are connect's business.)
+        faults = [] if name == 'connect' else [{'kind': kd, 'in_call': k, 'method': name, 'pos': pos, **det}
+                                               for pos, kd, det in scan_faults(r['events'])]
+        if faults or fault:
+            nontrivial = True
+        if name != 'connect':
+            for i, ev in enumerate(r['events']):
+                if ev[0] != 'w' or ev[3] or ev[6]:
+                    continue
+                f = fault or next((x for x in faults if x['pos'] <= i), None)
+                if f:
+                    unlatched(ctx, f"{name} transmits after {f['kind']} ({f['method']}, call {f['in_call']}): the error was not latched",
+                              where, {'fault': f, 'written_after_it': ev[1], 'all_written': r['written'], 'err_now': r['err']},
+                              'the first error is latched and no bytes are written afterwards',
+                              key=fault_key((0, f['kind'], f), f'C04:{name}:writes-after-unlatched-fault'))
+                    break
+        if fault and not blocked and name in req and (r['exc'] or not F.is_failure(r['ret'])):
+            unlatched(ctx, f"{name} does not return its failure value after {fault['kind']} ({fault['method']}, call {fault['in_call']})",
+                      where, {'fault': fault, 'ret': r['exc'] or repr(r['ret']), 'err_now': r['err']}, 'False / None / (None, None)',
+                      key=fault_key((0, fault['kind'], fault), f'C04:{name}:no-failure-after-unlatched-fault'))
+        if fault is None and faults:
+            fault = faults[0]
         # write / assignment granularity: the port records at every write whether an error is set - or was EVER
         # recorded - at that moment, and every assignment to `err` is logged (an error recorded and erased again
         # between two port operations never shows at I/O time)
@@ -128,6 +231,113 @@ def oracle(ctx, sc, recs, desc):
     if sc.tag.startswith('fault:raise') and len(ctx.samples) < 4:
         ctx.sample({'scenario': desc, 'observed': [{'call': r['call'][0], 'ret': repr(r['ret']), 'written': r['written'],
                                                     'err': r['err']} for r in recs]})
+
+
+# ----------------------------------------------------------------------------------------------
+# compound faults: a null read (timeout b'' / blank line) and THEN the fault, inside one exchange
+# ----------------------------------------------------------------------------------------------
+_COUNTS = {}
+
+
+def _counts(name, args):
+    if (name, args) not in _COUNTS:
+        _COUNTS[(name, args)] = F.clean_counts(name, args)
+    return _COUNTS[(name, args)]
+
+
+def null_prefixes():
+    """what may precede the reply inside the waiting window of one exchange"""
+    e, b = ('empty',), ('line', '\r\n')
+    return {'e': [e], 'b': [b], 'eb': [e, b], 'be': [('line', ' \r\n'), e], 'e2': [e, e], 'b3': [b, ('line', '\n'), ('line', '\t\r\n')],
+            'e24': [e] * 24, 'b24': [b] * 24}
+
+
+def late_tails():
+    """the reply that ends the wait: every error of the statement that is a *line* or an exception"""
+    P = F.DEFAULT_PAY
+    return {'OK': [('line', 'OK\r\n')],                          # the legacy-syntax acknowledgement
+            'wrong': [('wrong', dict(P, m=0))], 'wrong-data': [('wrong', dict(P, m=1))],
+            'wrong-same-letter': [('wrong1', dict(P, m=0))],
+            'err': [('err', P)], 'nameerr': [('nameerr', P)],
+            'raise': [('raise', 'serial')], 'raise-oserror': [('raise', 'oserror')]}
+
+
+def request_calls():
+    """(method, args) for every request method: its first argument class, and for the free-text methods one request of
+    each syntactic class (one letter, one letter with arguments, two letters, name ending in a digit, padded)"""
+    ac = F.arg_classes()
+    out = []
+    for name in F.request_methods():
+        for args in (ac[name] if name in ('command', 'query') else ac[name][:1]):
+            args = F.normalise_args(name, args)
+            if args and args[0] is None and name in ('command', 'query', 'write_nickname'):
+                continue
+            out.append((name, args))
+    return out
+
+
+def late_fault_scenarios():
+    """every request method x every read position of its fault-free run x {one empty read, one blank line, mixed, 2, 3, 24
+    null reads} x {OK, wrong name, wrong name sharing the first letter, Err line, name+Err, exception}: the fault arrives on
+    a RETRIED read.  Followed by two later requests rotating through all request methods."""
+    k = 0
+    tails = late_tails()
+    for name, args in request_calls():
+        nr, _ = _counts(name, args)
+        first_class = (name, args) == (name, F.normalise_args(name, F.arg_classes()[name][0]))
+        for pos in range(nr):
+            for pn, pre in null_prefixes().items():
+                for tn, tail in tails.items():
+                    if not first_class and (pn not in ('e', 'b') or tn not in ('OK', 'wrong-same-letter', 'err')):
+                        continue
+                    k += 1
+                    yield F.Scenario(F.State(port=True), [F.GOOD] * pos + pre + tail + [F.GOOD] * 12, [],
+                                     [(name, args)] + F.followups(k), f'late:{pn}+{tn}@r{pos}')
+
+
+def safe_predecessors():
+    """requests that leave a healthy object connected (reboot/bootload close the port)"""
+    return [c for c in request_calls() if c[0] not in ('reboot', 'bootload')]
+
+
+def position_scenarios(rng, n):
+    """the compound fault at EVERY call position of a sequence: for each request method as the failing call, after 1..4
+    healthy earlier requests (rotating through all request methods, replies aligned by the fault-free read counts), at a
+    read position of the failing call, then 2..3 later requests; prefix / tail kinds rotate, `n` more are drawn at random"""
+    pres, tails = list(null_prefixes().items()), list(late_tails().items())
+    calls = request_calls()
+    safe = safe_predecessors()
+    k = 0
+
+    def build(before, failing, pos, pre, tail, after, tag):
+        skip = sum(_counts(*c)[0] for c in before)
+        return F.Scenario(F.State(port=True), [F.GOOD] * (skip + pos) + pre + tail + [F.GOOD] * 12, [],
+                          before + [failing] + after, tag)
+    for fi, failing in enumerate(calls):
+        nr, _ = _counts(*failing)
+        if nr == 0:
+            continue
+        for depth in (1, 2, 3, 4):
+            k += 1
+            before = [safe[(fi * 5 + depth * 11 + j * 3) % len(safe)] for j in range(depth)]
+            pn, pre = pres[k % 2] if depth < 3 else pres[k % len(pres)]          # mostly the single null read
+            tn, tail = tails[(k // 2) % len(tails)]
+            yield build(before, failing, (k % nr), pre, tail, F.followups(k), f'late-seq:{pn}+{tn}@c{depth}')
+    for _ in range(n):
+        depth = rng.randint(0, 6)
+        before = [rng.choice(safe) for _ in range(depth)]
+        failing = rng.choice(calls)
+        nr, _ = _counts(*failing)
+        pn, pre = rng.choice(pres[:2]) if rng.random() < 0.5 else rng.choice(pres)
+        if rng.random() < 0.3:
+            pre = [rng.choice([('empty',), ('line', rng.choice(['\r\n', '\n', ' ', '\t\r\n', '\r']))])
+                   for _ in range(rng.choice([1, 2, 3, 5, 23, 24, 25]))]
+            pn = f'mix{len(pre)}'
+        tn, tail = rng.choice(tails)
+        if rng.random() < 0.25:
+            tail = [(tail[0][0], F.rand_payload(rng))] if tail[0][0] in ('wrong', 'wrong1', 'err', 'nameerr') else tail
+        after = [F.rand_call(rng, include_conn=rng.random() < 0.2) for _ in range(rng.randint(1, 4))]
+        yield build(before, failing, rng.randrange(nr) if nr else 0, pre, tail, after, f'late-seq-random:{pn}+{tn}@c{depth}')
 
 
 def c04_ignore(sc, recs, k, r, outs):
@@ -171,6 +381,8 @@ def run(ctx):
     n += F.run_scenarios(ctx, F.blocked_scenarios(), oracle, 'C04', c04_ignore)
     n += F.run_scenarios(ctx, F.fault_scenarios(), oracle, 'C04', c04_ignore)
     n += F.run_scenarios(ctx, F.pair_scenarios(), oracle, 'C04', c04_ignore)
+    n += F.run_scenarios(ctx, late_fault_scenarios(), oracle, 'C04', c04_ignore)
+    n += F.run_scenarios(ctx, position_scenarios(rng, ctx.n(400)), oracle, 'C04', c04_ignore)
     n += F.run_scenarios(ctx, F.connect_scenarios(), oracle, 'C04', c04_ignore)
     n += F.run_scenarios(ctx, F.two_object_scenarios(), oracle, 'C04', c04_ignore)
     n += F.run_scenarios(ctx, F.close_fault_scenarios(), oracle, 'C04', c04_ignore)
